@@ -10,7 +10,7 @@ theorem inv2_plain {s : Sh} {l r : List Th} {t t' : Th} (h : Inv2 s (l ++ t :: r
     (ht' : t'.held = none) (hp : t.pend = none) (hp' : t'.pend = none) (hs : t'.sdPend = true → t.sdPend = true)
     (hz : ∀ x, pre x t + wr x t = 0) : Inv2 s (l ++ t' :: r) :=
   inv2_move h (fun e he => by rw [ht'] at he; cases he) (by rw [hp, hp']) (fun hx => Or.inl (hs hx))
-    (fun _ _ _ x _ _ => by rw [hz x]; exact Nat.zero_le _)
+    (fun _ x _ _ => by rw [hz x]; exact Nat.zero_le _)
 
 theorem pend_cb_none {e : Elem} {k : Nat}
     (hg : ∀ due blk tag i, e.kind = .resched due blk tag → e.id = some i → k ≠ 1) : (Th.cb e k).pend = none := by
@@ -48,29 +48,29 @@ theorem inv2_exec2 {s : Sh} {l r : List Th} {t t' : Th} {i : Nat} (due : Nat) (k
     inv_same (inv_move hI (fun x => by rw [(held_none_zero ht' x).1]; exact Nat.zero_le _)
       (fun x => by rw [(held_none_zero ht' x).2]; exact Nat.zero_le _)
       (fun _ => by cases t' <;> simp_all [Th.held, TOk])) rfl rfl rfl rfl rfl rfl (Nat.le_refl _)
-  obtain ⟨c1, c2⟩ := add_unlock s false due (some i) kind tag
-  obtain ⟨f1, f2, f3, f4, f5⟩ := add_fields s due (some i) kind tag
+  obtain ⟨c1, c3, c2⟩ := add_unlock s false due (some i) kind tag
+  obtain ⟨f2, f3, f4, f5⟩ := add_fields s due (some i) kind tag
   unfold exec2
   cases hadd : add s due (some i) kind tag with
   | mk s1 r1 =>
     have e1 : (add s due (some i) kind tag).1 = s1 := by rw [hadd]
     have e2 : (add s due (some i) kind tag).2 = r1 := by rw [hadd]
-    rw [e1] at c1 f1 f2 f3 f4 f5
+    rw [e1] at c1 c3 f2 f3 f4 f5
     rw [e2] at c2
     cases r1 with
     | ok x =>
       refine inv2_add hI0 h0 due (some i) kind tag (fun _ _ => rfl) (by intro j hj; cases hj; exact hnone)
-        ?_ ?_ ?_ ?_ ?_ ?_ ?_ <;> simp only [c1, c2, f1, f2, f3, f4, regAfter]
+        ?_ ?_ ?_ ?_ ?_ ?_ ?_ <;> simp only [c1, c2, c3, f2, f3, f4, regAfter]
       have := add_reg s due (some i) kind tag
       rw [e1] at this; rw [this]
     | nil =>
       refine inv2_add hI0 h0 due (some i) kind tag (fun _ _ => rfl) (by intro j hj; cases hj; exact hnone)
-        ?_ ?_ ?_ ?_ ?_ ?_ ?_ <;> simp only [c1, c2, f1, f2, f3, f4]
+        ?_ ?_ ?_ ?_ ?_ ?_ ?_ <;> simp only [c1, c2, c3, f2, f3, f4]
       have := add_reg s due (some i) kind tag
       rw [e1] at this; rw [this]
     | panic =>
       refine inv2_add hI0 h0 due (some i) kind tag (fun _ _ => rfl) (by intro j hj; cases hj; exact hnone)
-        ?_ ?_ ?_ ?_ ?_ ?_ ?_ <;> simp only [c1, c2, f1, f2, f3, f4]
+        ?_ ?_ ?_ ?_ ?_ ?_ ?_ <;> simp only [c1, c2, c3, f2, f3, f4]
       have := add_reg s due (some i) kind tag
       rw [e1] at this; rw [this]
 
@@ -80,6 +80,44 @@ theorem inv2_cancelId {s : Sh} {ts : List Th} (hI : Inv s ts) (h : Inv2 s ts) (i
   | none => exact inv2_fields h rfl rfl rfl rfl rfl rfl rfl
   | some x =>
     exact inv2_cancel hI h x (some i) (by intro j hj; cases hj; exact hg) rfl (cancelElem_closed_mem s x) rfl rfl rfl rfl rfl
+
+/-- A poller gives up the element it holds and the element's cancel channel is closed in the same step. -/
+theorem inv2_dropHeld {s s' : Sh} {l r : List Th} {t t' : Th} {x0 : Nat} (h : Inv2 s (l ++ t :: r))
+    (ht' : t'.held = none) (hp : t.pend = none) (hp' : t'.pend = none) (hs : t'.sdPend = false)
+    (hz : ∀ x, x ≠ x0 → pre x t + wr x t = 0)
+    (hh : s'.heap = s.heap) (hcl : ∀ y, y ∈ s'.closed ↔ y ∈ x0 :: s.closed) (hr : s'.reg = s.reg)
+    (hlk : s'.regLocked = s.regLocked) (hsd : s'.isShutdown = s.isShutdown) (hcx : s'.ctxDone = s.ctxDone)
+    (hm : s'.maxSize = s.maxSize) : Inv2 s' (l ++ t' :: r) := by
+  have hsub : ∀ y ∈ s.closed, y ∈ s'.closed := fun y hy => (hcl y).mpr (List.mem_cons_of_mem _ hy)
+  have hreg : ∀ a, Reg s a → Reg s' a := fun a ha => ha.mono hsub (by intro i _ _; rw [hr])
+  constructor
+  · intro a ha; rw [hh] at ha; exact hreg a (h.e1 a ha)
+  · rw [forall_mid]
+    have := forall_mid.mp h.e2
+    refine ⟨fun u hu a hua => hreg a (this.1 u hu a hua), ?_, fun u hu a hua => hreg a (this.2.2 u hu a hua)⟩
+    intro a ha; rw [ht'] at ha; cases ha
+  · rw [forall_mid]
+    have := forall_mid.mp h.lk
+    refine ⟨fun u hu i hi => by rw [hr]; exact this.1 u hu i hi, ?_, fun u hu i hi => by rw [hr]; exact this.2.2 u hu i hi⟩
+    intro i hi; rw [hp'] at hi; cases hi
+  · have := h.lkc
+    rw [hlk]
+    have e0 : execPc t = 0 := by simp [execPc, hp]
+    have e1 : execPc t' = 0 := by simp [execPc, hp']
+    simp only [tsum_mid, e0, e1] at *
+    exact this
+  · intro i x hx hnc
+    rw [hr] at hx
+    have hx0 : x ≠ x0 := by rintro rfl; exact hnc ((hcl _).mpr List.mem_cons_self)
+    have h2 := h.f i x hx (fun hc => hnc (hsub _ hc))
+    have h3 := hz x hx0
+    rw [lv_mid] at *
+    rw [hh]; omega
+  · intro hc; rw [hcx] at hc; rw [hsd]; exact h.sdinv hc
+  · rw [forall_mid]
+    have := forall_mid.mp h.sdpc
+    refine ⟨fun u hu hp => by rw [hsd]; exact this.1 u hu hp, ?_, fun u hu hp => by rw [hsd]; exact this.2.2 u hu hp⟩
+    intro hp; rw [hs] at hp; cases hp
 
 theorem inv2_tr {s s' : Sh} {l r : List Th} {t t' : Th} (hI : Inv s (l ++ t :: r)) (h : Inv2 s (l ++ t :: r))
     (tr : Tr s t s' t') : Inv2 s' (l ++ t' :: r) := by
@@ -95,45 +133,45 @@ theorem inv2_tr {s s' : Sh} {l r : List Th} {t t' : Th} (hI : Inv s (l ++ t :: r
     · exact Or.inr rfl
   | wake hw =>
     exact inv2_fields (inv2_plain h rfl rfl rfl (fun hx => by cases hx) (fun _ => rfl)) rfl rfl rfl rfl rfl rfl rfl
-  | hkGo hr => exact inv2_move h (fun e he => he) rfl (fun hx => by cases hx) (fun _ _ _ _ _ _ => Nat.le_refl _)
+  | hkGo hr => exact inv2_move h (fun e he => he) rfl (fun hx => by cases hx) (fun _ _ _ _ => Nat.le_refl _)
   | selSdCancel hc hf =>
-    refine inv2_fields (inv2_move h (fun e he => by cases he) rfl (fun hx => by cases hx) ?_) rfl rfl rfl rfl rfl rfl rfl
-    intro _ h1; rw [h.sdinv hc] at h1; cases h1
+    rename_i e
+    exact inv2_dropHeld h rfl rfl rfl rfl (fun x hx => by have : ¬ e.serial = x := fun h' => hx h'.symm; simp [pre, wr, this]) rfl (fun _ => Iff.rfl) rfl rfl rfl rfl rfl
   | selSdIgnore hc hf hi =>
-    exact inv2_move h (fun e he => he) rfl (fun hx => by cases hx) (fun _ _ _ _ _ _ => Nat.le_refl _)
+    exact inv2_move h (fun e he => he) rfl (fun hx => by cases hx) (fun _ _ _ _ => Nat.le_refl _)
   | selSd hc hf hi =>
-    exact inv2_move h (fun e he => he) rfl (fun hx => by cases hx) (fun _ _ _ _ _ _ => Nat.le_refl _)
+    exact inv2_move h (fun e he => he) rfl (fun hx => by cases hx) (fun _ _ _ _ => Nat.le_refl _)
   | selCancel hc =>
     rename_i e
     refine inv2_fields (inv2_move h (fun a ha => by cases ha) rfl (fun hx => by cases hx) ?_) rfl rfl rfl rfl rfl rfl rfl
-    intro _ _ i x _ hnc
+    intro i x _ hnc
     have : ¬ e.serial = x := by rintro rfl; exact hnc hc
     simp [pre, wr, this]
   | selTimer hd =>
-    exact inv2_move h (fun e he => he) rfl (fun hx => by cases hx) (fun _ _ _ _ _ _ => Nat.le_refl _)
+    exact inv2_move h (fun e he => he) rfl (fun hx => by cases hx) (fun _ _ _ _ => Nat.le_refl _)
   | selSDCancel hc =>
     rename_i e
     refine inv2_fields (inv2_move h (fun a ha => by cases ha) rfl (fun hx => by cases hx) ?_) rfl rfl rfl rfl rfl rfl rfl
-    intro _ _ i x _ hnc
+    intro i x _ hnc
     have : ¬ e.serial = x := by rintro rfl; exact hnc hc
     simp [pre, wr, this]
   | selSDTimer hd =>
-    exact inv2_move h (fun e he => he) rfl (fun hx => by cases hx) (fun _ _ _ _ _ _ => Nat.le_refl _)
+    exact inv2_move h (fun e he => he) rfl (fun hx => by cases hx) (fun _ _ _ _ => Nat.le_refl _)
   | chkSkip hc =>
     rename_i e
     refine inv2_fields (inv2_move h (fun a ha => by cases ha) rfl (fun hx => by cases hx) ?_) rfl rfl rfl rfl rfl rfl rfl
-    intro _ _ i x _ hnc
+    intro i x _ hnc
     have : ¬ e.serial = x := by rintro rfl; exact hnc hc
     simp [pre, wr, this]
   | chkDeliver hnc =>
     refine inv2_fields (inv2_move h (fun a ha => ha) rfl (fun hx => by cases hx) ?_) rfl rfl rfl rfl rfl rfl rfl
-    intro _ _ _ x _ _; simp [pre, wr]
+    intro _ x _ _; simp [pre, wr]
   | wrapRaw hid =>
     rename_i e
     have htok : Known s e ∧ Ready s e := hI.th_ok (.wrap e) (by simp)
     have hidf : idOf e.serial s.log = some none := by rw [← hid]; exact htok.1.2.2
     refine inv2_fields (inv2_move h (fun a ha => by cases ha) rfl (fun hx => by cases hx) ?_) rfl rfl rfl rfl rfl rfl rfl
-    intro _ _ j x hx _
+    intro j x hx _
     have : ¬ e.serial = x := by
       rintro rfl
       have := hI.r_id j _ hx
@@ -145,7 +183,7 @@ theorem inv2_tr {s s' : Sh} {l r : List Th} {t t' : Th} (hI : Inv s (l ++ t :: r
     have htok : Known s e ∧ Ready s e := hI.th_ok (.wrap e) (by simp)
     have hidf : idOf e.serial s.log = some (some i) := by rw [← hid]; exact htok.1.2.2
     refine inv2_fields (inv2_move h (fun a ha => by cases ha) rfl (fun hx => by cases hx) ?_) rfl rfl rfl rfl rfl rfl rfl
-    intro _ _ j x hx _
+    intro j x hx _
     have : ¬ e.serial = x := by
       rintro rfl
       have h1 := hI.r_id j _ hx
@@ -179,18 +217,29 @@ theorem inv2_tr {s s' : Sh} {l r : List Th} {t t' : Th} (hI : Inv s (l ++ t :: r
   | ctlSd2 =>
     rename_i dw script
     have hsd := h.sdpc (.ctl (.sd2 dw) script) (by simp) rfl
-    exact inv2_shut (inv2_move h (fun a ha => by cases ha) rfl (fun _ => Or.inl rfl) (fun _ _ _ _ _ _ => Nat.le_refl _))
-      (HSub.refl _) rfl rfl rfl hsd rfl
+    exact inv2_shut (inv2_move h (fun a ha => by cases ha) rfl (fun _ => Or.inl rfl) (fun _ _ _ _ => Nat.le_refl _))
+      (HSub.refl _) (fun _ hy => hy) (fun _ _ => rfl) rfl rfl hsd rfl
   | ctlSd3 =>
     rename_i dw script
     have hsd := h.sdpc (.ctl (.sd3 dw) script) (by simp) rfl
     have h1 : Inv2 s (l ++ Th.ctl (if dw = true then CPc.ready else CPc.sdWait) script :: r) :=
       inv2_plain h rfl rfl (by cases dw <;> rfl) (fun _ => rfl) (fun _ => rfl)
-    refine inv2_shut h1 ?_ ?_ ?_ ?_ ?_ ?_
+    refine inv2_shut h1 ?_ ?_ ?_ ?_ ?_ ?_ ?_
     · show HSub (sd3 s).heap s.heap
       unfold sd3; split
       · exact HSub.nil _
       · exact HSub.refl _
+    · show ∀ y ∈ s.closed, y ∈ (sd3 s).closed
+      unfold sd3; split
+      · exact fun y hy => List.mem_append_right _ hy
+      · exact fun _ hy => hy
+    · show ∀ y, y ∉ (sd3 s).closed → hc y (sd3 s).heap = hc y s.heap
+      unfold sd3; split
+      · intro y hy
+        simp only [broadcast, List.mem_append, List.mem_map, not_or, not_exists, not_and] at hy
+        symm
+        exact hc_zero_of_forall (fun e he hx => hy.1 e he hx)
+      · intro _ _; rfl
     all_goals (unfold sd3; split <;> first | rfl | exact hsd)
   | ctlSdWait hw =>
     exact inv2_fields (inv2_plain h rfl rfl rfl (fun hx => by cases hx) (fun _ => rfl)) rfl rfl rfl rfl rfl rfl rfl
@@ -199,8 +248,8 @@ theorem inv2_tr {s s' : Sh} {l r : List Th} {t t' : Th} (hI : Inv s (l ++ t :: r
     rename_i due tag kind rest
     have h1 := inv2_plain (t' := .ctl .ready rest) h rfl rfl rfl (fun hx => by cases hx) (fun _ => rfl)
     have hI1 : Inv s (l ++ Th.ctl .ready rest :: r) := noElem_move hI (fun _ => rfl) (fun _ => rfl) trivial
-    obtain ⟨f1, f2, f3, f4, f5⟩ := add_fields s due none kind tag
-    refine inv2_add hI1 h1 due none kind tag (by intro i hi; cases hi) (by intro i hi; cases hi) rfl f1 ?_ f5 f2 f3 f4
+    obtain ⟨f2, f3, f4, f5⟩ := add_fields s due none kind tag
+    refine inv2_add hI1 h1 due none kind tag (by intro i hi; cases hi) (by intro i hi; cases hi) rfl rfl ?_ f5 f2 f3 f4
     show (add s due none kind tag).1.reg = _
     rw [add_reg]
     cases (add s due none kind tag).2 <;> rfl
@@ -221,8 +270,8 @@ theorem inv2_tr {s s' : Sh} {l r : List Th} {t t' : Th} (hI : Inv s (l ++ t :: r
     rename_i f rest
     obtain ⟨_, rfl⟩ := sd1_some hs
     have h1 : Inv2 ({ s with isShutdown := true } : Sh) (l ++ Th.ctl .ready (.shutdown f :: rest) :: r) :=
-      inv2_shut h (HSub.refl _) rfl rfl rfl rfl rfl
-    exact inv2_fields (inv2_move h1 (fun a ha => by cases ha) rfl (fun _ => Or.inr rfl) (fun _ _ _ _ _ _ => Nat.le_refl _))
+      inv2_shut h (HSub.refl _) (fun _ hy => hy) (fun _ _ => rfl) rfl rfl rfl rfl
+    exact inv2_fields (inv2_move h1 (fun a ha => by cases ha) rfl (fun _ => Or.inr rfl) (fun _ _ _ _ => Nat.le_refl _))
       rfl rfl rfl rfl rfl rfl rfl
   | ctlSdAgain hs hpc =>
     rename_i f rest res pc
